@@ -831,7 +831,13 @@ def gen_big(rng, origin=None):
         rds.append([b])
         total += len(b) + 12
     pos = rng.choice([0, 0, len(am[2][1])]) if am[2][1] else 0
-    am[2][1].insert(pos, [pool.name() or [b"big", b""], IN, TXT, 0, None, 60, rds])
+    def absk(n):
+        return tuple(lower(l) for l in (n if (n and n[-1] == b"") or origin is None else n + origin))
+    owner = pool.name() or [b"big", b""]
+    present = set(absk(r[0]) for r in am[2][1] if r[1] == IN and r[2] == TXT)
+    while absk(owner) in present or sum(len(l) + 1 for l in owner) > 200:
+        owner = [b"big%d" % rng.randrange(1000)] + ([b""] if origin is None else [])
+    am[2][1].insert(pos, [owner, IN, TXT, 0, None, 60, rds])
     used = set((tuple(lower(l) for l in (r[0] if (r[0] and r[0][-1] == b"") or origin is None else r[0] + origin)),
                 r[1], r[2], r[3], None) for r in am[2][2])
     for _ in range(rng.choice([3, 6, 10])):
